@@ -29,7 +29,8 @@ CONSTANTS Nodes,        \* e.g. {"A"} or {"R", "A"}
           UserOps,      \* [Nodes -> SUBSET {"release", "abort", "echo"}]
           MaxOps,       \* user API calls per node
           Policy,       \* [Nodes -> SUBSET {"accept", "reject"}] acceptor decision
-          KnownCrash    \* set of <<role, event, state>> signatures recorded in known_findings.json
+          KnownCrash,   \* set of <<role, event, state>> signatures recorded in known_findings.json
+          HandlerAbort  \* [Nodes -> SUBSET BOOLEAN] may the C-ECHO handler call assoc.abort() ?
 
 VARIABLES nd,      \* [Nodes -> node record]
           wire,    \* [Nodes -> Seq(frame kind)]  inbound byte stream as frames
@@ -157,7 +158,7 @@ Act(r, a, n) ==
 
 NextSt(r, a, n) == Effect(a, [requestor |-> Role[n] = "requestor",
                               pvOK |-> ~(r.recvq # <<>> /\ Head(r.recvq) = "RQBADPV"),
-                              abortSrc |-> 0, headAbort |-> FALSE]).next
+                              abortSrc |-> 0, headAbort |-> "none"]).next
 
 ------------------------------------------------------------------------------
 (* Delivery of what a node sent / closed during a step to its environment *)
@@ -364,17 +365,25 @@ RWait(n) ==     \* _reactor_checkpoint.wait(); _is_paused = False
   /\ r.apc = "r_wait" /\ r.ckpt
   /\ Upd(n, [r EXCEPT !.paused = FALSE, !.apc = "r_msg"])
 
+\* abort() called from inside a service handler is the non-blocking variant: guard, mark, A-ABORT
+\* request, flags, EVT_ABORTED - and return (no kill, no shutdown)
+AbortNonBlocking(r) ==
+  IF r.sentAbort \/ r.rel THEN r
+  ELSE Fire([Put([r EXCEPT !.sentAbort = TRUE, !.ckpt = TRUE], "provq", "ABORT") EXCEPT !.abt = TRUE, !.est = FALSE],
+            "ABORTED")
+
 RMsg(n) ==      \* dimse.get_msg(block=False) and _serve_request
   LET r == nd[n] IN
   /\ r.apc = "r_msg"
-  /\ LET r1 == IF r.msgq = <<>> THEN r ELSE [r EXCEPT !.msgq = Tail(@)]
-         \* a valid request (and no release sent yet) is served: one response
-         \* (the SCP returns without answering when the association is no longer established;
-         \*  _is_paused is set around the SCP and cleared afterwards)
-         r2 == IF r.msgq # <<>> /\ Head(r.msgq) = "REQ" /\ ~r.sentRel
-               THEN [(IF r1.est THEN Put(r1, "provq", "PDATA_RSP") ELSE r1) EXCEPT !.paused = FALSE]
-               ELSE r1 IN
-     Upd(n, Cont(r2, n, "apc", "loop"))
+  /\ LET r1 == IF r.msgq = <<>> THEN r ELSE [r EXCEPT !.msgq = Tail(@)] IN
+     IF r.msgq # <<>> /\ Head(r.msgq) = "REQ" /\ ~r.sentRel
+     THEN \* a valid request (and no release sent yet) is served: _is_paused set around the SCP;
+          \* the handler may abort; the SCP answers only if the association is still established
+          \E ha \in HandlerAbort[n] :
+            LET r2 == IF ha THEN AbortNonBlocking(r1) ELSE r1
+                r3 == [(IF r2.est THEN Put(r2, "provq", "PDATA_RSP") ELSE r2) EXCEPT !.paused = FALSE] IN
+            Upd(n, Cont(r3, n, "apc", "loop"))
+     ELSE Upd(n, Cont(r1, n, "apc", "loop"))
 
 RRel(n) ==      \* if is_established and acse.is_release_requested()
   LET r == nd[n] IN
